@@ -325,6 +325,10 @@ class Report:
             replay_paths.append(path)
             print("  " + v["msg"].replace("\n", "\n  ")[:3000])
             print("VIOLATION property=%s replay=%s" % (self.prop, path))
+        if self.violations:
+            with open(os.path.join(VERIF, "replays", self.prop + "-all-violations.txt"), "w") as f:
+                for v in self.violations:
+                    f.write("%s | %s\n" % (v["key"], v["msg"].split("\n")[0][:300]))
         missing = [r for r in required_reach if self.reach.get(r, 0) == 0]
         wall = time.monotonic() - self.t0
         cov = {
